@@ -78,21 +78,22 @@ type run struct {
 	ah   *core.Hasher
 	ops  []string
 
-	nAcc     int
-	cfg      tx_pool.TxPoolConfig
-	chain    *simChain
-	pool     *tx_pool.TxPool
-	m        *model
-	reg      map[common.Hash]*txinfo
-	nextID   int
-	usedPN   map[string]int
-	journal  string
-	start    time.Time
-	stopped  string
-	hard     bool         // a violation that ends the run was recorded
-	wasLocal []bool       // senders that were local before the current operation
-	optLocal bool         // the optional transactions of the current check were local submissions
-	dirty    map[int]bool // senders whose queue the pool examined in the last operation
+	nAcc      int
+	cfg       tx_pool.TxPoolConfig
+	chain     *simChain
+	pool      *tx_pool.TxPool
+	m         *model
+	reg       map[common.Hash]*txinfo
+	nextID    int
+	usedPN    map[string]int
+	journal   string
+	start     time.Time
+	poolStart time.Time // creation instant of the current pool (its tickers count from here)
+	stopped   string
+	hard      bool         // a violation that ends the run was recorded
+	wasLocal  []bool       // senders that were local before the current operation
+	optLocal  bool         // the optional transactions of the current check were local submissions
+	dirty     map[int]bool // senders whose queue the pool examined in the last operation
 
 	ilv       bool
 	sched     *scheduler
@@ -297,6 +298,7 @@ func (r *run) setup() {
 			r.res.Probe("ilv-fallback-sequential")
 		}
 	}
+	r.poolStart = time.Now()
 	r.pool = tx_pool.NewTxPool(r.cfg, chainCfg, r.chain)
 	synctest.Wait()
 	r.wasLocal = append([]bool(nil), r.m.local...)
